@@ -15,6 +15,7 @@ def plan(tier):
           (PG.forced_full_pipe(1, 1024, 3, 700, False), 1, PT),
           (PG.forced_descendants(2, False, False), 1, PT), (PG.forced_descendants(1, True, False), 1, PT),
           (PG.forced_descendants(2, False, True), 1, dict(kinds=("P",))),
+          (PG.forced_nowait_prompt(2, 1), 1, PT), (PG.forced_nowait_prompt(1, 2), 1, PT),
           (PG.forced_then_graceful(2, True), 1, PT), (PG.forced_then_graceful(1, False), 1, PT),
           (PG.forced_with_callbacks(1, False), 1, PT), (PG.forced_with_callbacks(2, True), 1, dict(kinds=("P",))),
           (PG.shutdown_in_callback("shutdown_kill", 2, 3), 1, PT)]
